@@ -38,8 +38,9 @@ VARIABLES l,      \* next record
           ndiv,   \* number of divergences
           lst,    \* [node -> last logged scalar state]
           nsteps, \* core/task records compared
-          viol    \* property monitors that failed: <<name, line of the run boundary>>
-tvars == <<vars, l, div, ndiv, lst, nsteps, viol>>
+          viol,   \* property monitors that failed: <<name, line of the run boundary>>
+          have    \* [node -> keys written to the node's store by the mempool Processor (batch digests)]
+tvars == <<vars, l, div, ndiv, lst, nsteps, viol, have>>
 
 InitLst == [r |-> 1, lv |-> 0, lc |-> 0, hq |-> Genesis]
 
@@ -47,6 +48,7 @@ TInit ==
   /\ Init
   /\ l = 1 /\ div = <<>> /\ ndiv = 0 /\ nsteps = 0 /\ viol = {}
   /\ lst = [n \in Honest |-> InitLst]
+  /\ have = [n \in Honest |-> {}]
 
 -----------------------------------------------------------------------------
 \* normal form of effects, shared by model and log
@@ -138,6 +140,14 @@ Diverge(what) == /\ ndiv' = ndiv + 1
                  /\ div' = IF Len(div) < 30 THEN Append(div, <<l, what>>) ELSE div
 NoDiverge == UNCHANGED <<div, ndiv>>
 
+\* C08: when the node votes for a block of another authority, or delivers a block as committed, every batch digest of
+\* the block's payload is a key the node's own store holds (written by its mempool Processor before this step)
+PayloadOf(id) == IF id = 0 \/ id \notin DOMAIN BInfo THEN {} ELSE {BInfo[id].payload[i] : i \in 1..Len(BInfo[id].payload)}
+AvailViol(n, e) ==
+  LET vs == LoggedKinds(e, "vote")  cs == LoggedKinds(e, "commit") IN
+  (IF \A i \in 1..Len(vs) : (vs[i].blk \in DOMAIN BInfo /\ BInfo[vs[i].blk].author = n) \/ PayloadOf(vs[i].blk) \subseteq have[n] THEN {} ELSE {<<"C08.VoteHasPayload", l>>}) \cup
+  (IF \A i \in 1..Len(cs) : PayloadOf(cs[i].blk) \subseteq have[n] THEN {} ELSE {<<"C08.CommitHasPayload", l>>})
+
 CoreStep(e) ==
   LET n == e.node  s0 == ns[n]
       pred == IF Rejected(e) THEN s0 ELSE Predict(e, s0)
@@ -150,7 +160,8 @@ CoreStep(e) ==
              ELSE ns' = [ns EXCEPT ![n] = Resync(pred, e)] /\ Diverge(e.k)
      /\ Observe(n, e)
      /\ nsteps' = nsteps + 1
-     /\ UNCHANGED <<proposals, votes, timeouts, tcs, viol>>
+     /\ viol' = viol \cup AvailViol(n, e)
+     /\ UNCHANGED <<proposals, votes, timeouts, tcs, have>>
 
 TaskStep(e) ==
   LET n == e.node  s0 == ns[n] IN
@@ -178,7 +189,7 @@ TaskStep(e) ==
             /\ UNCHANGED hist
        [] OTHER -> UNCHANGED <<ns, hist>> /\ NoDiverge
   /\ nsteps' = nsteps + 1
-  /\ UNCHANGED <<proposals, votes, timeouts, tcs, delivered, lst, viol>>
+  /\ UNCHANGED <<proposals, votes, timeouts, tcs, delivered, lst, viol, have>>
 
 \* The properties are the formulas of HotStuff.tla.  They are monotone in the history, so it is enough
 \* to evaluate them when a run is complete (the next record is a reset or the end marker).
@@ -204,10 +215,12 @@ Reset ==
   /\ delivered' = [n \in Honest |-> <<>>]
   /\ hist' = [n \in Honest |-> InitHist]
   /\ lst' = [n \in Honest |-> InitLst]
+  /\ have' = [n \in Honest |-> {}]
   /\ UNCHANGED <<div, ndiv, nsteps>>
 
-Skip == UNCHANGED <<vars, div, ndiv, lst, nsteps, viol>>
-End == viol' = viol \cup BoundaryViol /\ UNCHANGED <<vars, div, ndiv, lst, nsteps>>
+Skip == UNCHANGED <<vars, div, ndiv, lst, nsteps, viol, have>>
+End == viol' = viol \cup BoundaryViol /\ UNCHANGED <<vars, div, ndiv, lst, nsteps, have>>
+Stored(e) == have' = [have EXCEPT ![e.node] = @ \cup {e.digest}] /\ UNCHANGED <<vars, div, ndiv, lst, nsteps, viol>>
 
 TNext ==
   /\ l <= Len(Rec)
@@ -217,6 +230,7 @@ TNext ==
          [] e.t = "end" -> End
          [] e.t = "core" /\ e.node \in Honest -> CoreStep(e)
          [] e.t = "task" /\ e.node \in Honest -> TaskStep(e)
+         [] e.t = "mp" /\ e.k = "BatchStored" /\ e.node \in Honest -> Stored(e)
          [] OTHER -> Skip
 
 TSpec == TInit /\ [][TNext]_tvars
